@@ -11,7 +11,7 @@
 From Coq Require Import List NArith Bool Arith Lia.
 From Verif.Common Require Import Cas.
 From Verif.C19 Require Import Model.
-From Verif.C20 Require Import Model Spec Lemmas Proofs Main.
+From Verif.C20 Require Import Model Spec Lemmas Proofs Main Cap.
 Import ListNotations.
 Open Scope N_scope.
 
@@ -148,6 +148,20 @@ Theorem c20_block_cap_fixed_witness :
   count_affs (snap_of (st_ents s)) 0 (fun _ => true) = 1%nat.
 Proof. exact cap_fixed_witness. Qed.
 Print Assumptions c20_block_cap_fixed_witness.
+
+(* The part of the cap that is proved (both variants, every answer of the datastore, hence every interleaving):
+   AutoAssign's loop, once numBlocksOwned has reached the effective limit, never asks the datastore to create a block
+   affinity (`nac`), so it can only use blocks the host already holds or fail with the block-limit error.
+   numBlocksOwned starts from the host's affine blocks in the usable pools (g_capfix = false, pinned code) or from
+   every block that stays affine to the host (g_capfix = true), and grows by one per newly claimed block.
+   NOT proved: the global bound "affinities of the host in the datastore <= max(cap, before)" for sequential
+   histories of the fixed variant; it needs the exact answers of the store along claim_outer's retry loop (a failed
+   claim that leaves its pending affinity behind is only excluded when nobody interferes).  That bound is checked by
+   the oracle on every implementation run (ok_cap_global). *)
+Theorem c20_block_cap_partial : forall cf fuel ips rem owned maxb num h tag host node ps,
+  (maxb <= owned)%nat -> nac (aa_loop cf fuel ips rem owned maxb num h tag host node ps).
+Proof. exact aa_loop_at_cap_creates_no_affinity. Qed.
+Print Assumptions c20_block_cap_partial.
 
 (* A fact about the code, not a defect: when the request names pools, the node selector is ignored (determinePools:
    "for backwards compatibility").  Node 0 has no labels, the pool requires has(k0): without requested pools the
